@@ -17,7 +17,8 @@ EXTENDS Integers, Sequences, FiniteSets, TLC, Json
 CONSTANTS Components,   \* alphabet of name components
           MaxComp,      \* components per base name
           Table,        \* function: registered suffix (sequence of components) -> grammar id
-          RemapPool     \* set of remappings [from |-> suffix, to |-> suffix] to draw from (0 or 1 per case)
+          RemapPool,    \* set of remappings [from |-> suffix, to |-> suffix] to draw from (0 or 1 per case)
+          RemapPairs    \* set of two-element sets of remappings (several -E flags on one command line)
 
 VARIABLES name, remap,       \* input: base name (sequence of components), set of remappings
           k, result, pc      \* walk: number of components in the suffix being tried
@@ -32,7 +33,7 @@ Suffix(n, j) == SubSeq(n, Len(n) - j + 1, Len(n))       \* the last j components
 RemapValid == \A r \in remap : r.to \in Registered       \* flags.rs validate
 
 Init == /\ name \in UNION {[1..n -> Components] : n \in 1..MaxComp}
-        /\ remap \in {{}} \cup {{r} : r \in RemapPool}
+        /\ remap \in {{}} \cup {{r} : r \in RemapPool} \cup RemapPairs
         /\ k = 1 /\ result = "pending" /\ pc = "walk"
 
 \* `for (i, _) in file_name.match_indices('.').rev()`: suffixes with 1 .. Len-1 components
